@@ -49,7 +49,8 @@ var setC09 = [][2]string{{"oj.Parse", ""}, {"oj.ParseReader", "whole"}, {"oj.Val
 	{"oj.TokenizeLoad1", "whole"}, {"oj.TokenizeLoad1", "1"}, {"oj.TokenizeLoad1", "3"}, {"gen.ParseReader", "whole"}, {"gen.ParseReader", "1"}, {"gen.ParseReader", "3"},
 	// readers that hand over their last bytes together with io.EOF (iotest.DataErrReader) and that return half of what is asked for
 	{"oj.ParseReader", "dataerr"}, {"oj.ValidateReader1", "dataerr"}, {"oj.TokenizeLoad1", "dataerr"}, {"gen.ParseReader", "dataerr"},
-	{"oj.ParseReader", "half"}, {"oj.ValidateReader1", "half"}, {"oj.TokenizeLoad1", "half"}, {"gen.ParseReader", "half"}}
+	{"oj.ParseReader", "half"}, {"oj.ValidateReader1", "half"}, {"oj.TokenizeLoad1", "half"}, {"gen.ParseReader", "half"},
+	{"oj.ParseReader", "dataerr:1"}, {"oj.ValidateReader1", "dataerr:1"}, {"oj.TokenizeLoad1", "dataerr:1"}, {"gen.ParseReader", "dataerr:1"}}
 
 type group struct {
 	As []string `json:"as"`
